@@ -50,6 +50,12 @@ CLAIMS = {
         note="Trusted: the fact table (each line reproduced once by hand), server-provided gateway keys, builtin exception hierarchy. Path-insensitive inside a function: three confirmed-infeasible reports are suppressed by name with a reason. Asserts are not counted.",
         ref="DESIGN.md section 3, C12",
     ),
+    "C04": dict(
+        technique="static analysis: sibling cross-check - pairing table over both packages, normalised-AST equality (async/await removed, gateway vocabulary mapped, locals alpha-renamed) and multiset comparison of effect fingerprints with an explicit sanctioned-difference table",
+        text="Agreement between two hand-copied implementations is a property of the program text, so it is decided for all inputs and programs at once: 62 sibling pairs (every definition of baize.wsgi.* with its baize.asgi.* namesake, renamed nested definitions, parse_stream/parse_async_stream, UploadFile/FormData sync-async twins) are compared - 28 are equal after normalisation, 34 are compared on effect fingerprints (parameters and defaults, decorators, constants, header writes with key/value/guard, request-mapping stores, attribute stores, raises, calls into shared code with arguments and lexical guard). Every difference must match a sanctioned gateway difference (one regex + one reason each), the Connection header of the event-stream response being the statement's own exception. Also: public-name pairing, one-sided definitions, class attributes and bases, no one-sided override of shared bases. Two genuine differences were found and repaired (F7, F25).",
+        note="Not decided: equality of values computed by shared stdlib calls beyond equal argument expressions; duplicate request-header semantics; a sanctioned whole-body pair (request stream, header mapping, middleware capture) is compared on signature only and covered by C10/C20. A one-sided refactor that changes the lexical guard text of an effect without changing behaviour is reported (conservative).",
+        ref="DESIGN.md section 3, C04",
+    ),
 }
 
 NOT_APPLICABLE = {
